@@ -133,7 +133,7 @@ ProfilesQuick == {Prof("inner", 1, 1, -2, 2, 4, 0, FALSE), Prof("inner", 2, 2, -
                   Prof("x2x", 2, 2, -2, 2, 4, 0, FALSE), Prof("log", 1, 1, -2, 2, 4, 0, FALSE)}
 \* thorough tier: the full assigned bounds (1-3 motors, num 1..4, starts/stops -2..2) for the inner product (65100 cases)
 \* and for meshes of 1-2 axes (100 + 20000); 3-axis meshes with start < stop in -1..1, num 1..3 (2916) and with
-\* arbitrary starts/stops in 0..1, num 1..2 (2048); x2x / log 100 each
+\* arbitrary starts/stops in 0..1, num 1..2 (2048, 32 of them also in the previous profile); x2x / log 100 each
 ProfilesThorough == {Prof("inner", 1, 3, -2, 2, 4, 0, FALSE), Prof("outer", 1, 2, -2, 2, 4, 16, FALSE),
                      Prof("outer", 3, 3, -1, 1, 3, 27, TRUE), Prof("outer", 3, 3, 0, 1, 2, 8, FALSE),
                      Prof("x2x", 2, 2, -2, 2, 4, 0, FALSE), Prof("log", 1, 1, -2, 2, 4, 0, FALSE)}
